@@ -142,6 +142,7 @@ def make_plan(prop, seed):
         rs["lazy"] = r.random() < 0.5
         mix = r.choice(["default", "default", "builtin", "none"])
     elif prop == "C12":
+        rs["p_add_request"] = r.choice([0.0, 0.15, 0.3])   # requests inserted through the co-simulation API, also at clock zero
         adv["p_instr"] = r.choice([0.0, 0.05, 0.2])
         mix = "both"
         if r.random() < 0.3:
@@ -151,6 +152,7 @@ def make_plan(prop, seed):
         rs["buggify"] = r.random() < 0.4
         rs["p_ext"] = r.choice([0.0, 0.1])
     elif prop == "C17":
+        rs["p_add_request"] = r.choice([0.0, 0.15, 0.3])
         adv["p_double"] = 0.5
         rs["buggify"] = r.random() < 0.25
         mix = r.choice(["builtin", "adv", "both", "both"])
